@@ -37,6 +37,7 @@ Fixpoint eval_ops_cap (e : expr) (st : list N) : option (list N) :=
   end.
 
 Definition eval_expr_cap (e : expr) : option N :=
+  if expr_too_long e then None else
   match eval_ops_cap e [] with
   | Some (top :: _) => Some top
   | _ => None
